@@ -312,6 +312,9 @@ pub fn drive_ops(a: &Args, out: &mut Out) {
     for _ in 0..a.num("nrand", nrand) {
         pairs.push(gen::random_pair(&mut rng, maxlen));
     }
+    for _ in 0..(if thorough { 600 } else { 60 }) {
+        pairs.push(gen::runny_ints(&mut rng));
+    }
     // scale: more distinct tokens than 16 bits can number, with the longer side below / above
     // 65 535 tokens (TextDiff maps tokens to integers above 100 tokens)
     if a.get("big", "1") == "1" {
